@@ -198,8 +198,34 @@ def case_create(c):
     return out
 
 
+def case_mh(c):
+    """a refinement on its own: generate from the given source, then ask its validate()"""
+    from harness import grammars
+
+    ns = {}
+    exec(grammars.HEADER.split("\n\n")[0], ns)
+    mh = eval(grammars.py_mh(c["mh"]), ns)
+    base = eval(grammars.py_ty(c["base"]), ns)
+    src = mk_src(c["src"])
+    canon = Canon([])
+
+    def rec(t, **kw):
+        raise RuntimeError("rec called")
+    if c["mh"][0] == "dependent":
+        r = {"ok": c.get("probe_value", 0)}      # Dependent: only its validate() is asked, about a given value
+    else:
+        r = guarded(lambda: mh.generate(src, None, base, rec, {}))
+    if r.get("exc") == "BadTape":
+        r = {"exc": "BadTape"}
+    out = {"res": r if "exc" in r else {"ok": canon(r["ok"])}, "src": src_obs(src)}
+    if "ok" in r:
+        rv = guarded(lambda: mh.validate(r["ok"]))
+        out["validate"] = rv if "exc" in rv else {"ok": bool(rv["ok"]) if type(rv["ok"]) in (bool,) or rv["ok"] in (0, 1) else None}
+    return out
+
+
 def handler(p):
-    return [guarded(lambda: case_create(c)) if c["op"] == "create" else {"exc": "unknown op"} for c in p["cases"]]
+    return [guarded(lambda: (case_create if c["op"] == "create" else case_mh)(c)) for c in p["cases"]]
 
 
 if __name__ == "__main__":
